@@ -582,6 +582,9 @@ func GenStakingScenario(t *rapid.T, st *Stats) (*Scenario, stakeInfo) {
 		era.OneWaySmall = era.V202
 		info.V202AtSnapshot = true
 	}
+	if era.OneWaySmall < start+4 {
+		era.OneWaySmall = start + 4 // the holders' first conversions (executed at start+3) may still buy small-cap assets
+	}
 	w := NewWorld(t, era, 40)
 	miners := w.Actors[:40]
 	grade := func() []Entry { w.JitterPrices(10); return w.OPRSet(OPRSetOpts{N: 26, Miners: miners}) }
@@ -595,7 +598,12 @@ func GenStakingScenario(t *rapid.T, st *Stats) (*Scenario, stakeInfo) {
 		if rapid.IntRange(0, 3).Draw(t, "tie") == 0 && i > 0 {
 			amt = 100e8
 		}
-		dst := []int{TUSD, 3, 4, 18, 19, 26, 33}[rapid.IntRange(0, 6).Draw(t, "dst")]
+		// any of the 61 non-PEG assets, with the ends of the ticker list over-represented (the
+		// small-cap assets among them can still be bought: they become one-way only at start+4)
+		dst := []int{TUSD, 3, 4, 18, 19, 26, 33, NT - 1, NT - 2, NT - 1}[rapid.IntRange(0, 9).Draw(t, "dst")]
+		if rapid.IntRange(0, 2).Draw(t, "anyAsset") == 0 {
+			dst = rapid.IntRange(2, NT-1).Draw(t, "dstAny")
+		}
 		b.TX = append(b.TX, w.Conversion(a, TPEG, amt, dst))
 	}
 	w.Commit(b)
